@@ -831,8 +831,17 @@ def run(ctx):
             mixed.append(gen_db.gff_line("chr1", rm.choice(["exon", "exon", "exon", "CDS"]), pos, pos + ln, rm.choice("+-."),
                                          [("ID", ["x%d" % k])]))
             pos += rm.choice([1, 2, ln, ln + 1, ln + 2, ln + 20])
+        # one class, strands '+' < '-' < '.' in merge_all's order: an overlapping '+' / '-' pair merges into a '.' feature
+        # whose place in that order is AFTER further '-' rows and just before a '.' feature it overlaps
+        o = rm.randrange(1, 500)
+        directed = [gen_db.gff_line("chr1", "exon", o, o + 4, "+", [("ID", ["a"])]),
+                    gen_db.gff_line("chr1", "exon", o + 2, o + 7, "-", [("ID", ["b"])]),
+                    gen_db.gff_line("chr1", "exon", o + 3, o + 8, ".", [("ID", ["c"])]),
+                    gen_db.gff_line("chr1", "exon", o + 30, o + 40, "-", [("ID", ["d"])]),
+                    gen_db.gff_line("chr1", "exon", o + 50, o + 60, "-", [("ID", ["e"])])]
+        rm.shuffle(directed)
         for crit_name in ("no_strand", "any_no_strand", "no_type"):
-            for lset, tag_ in ((lines, "generated"), (mixed, "mixed_strands")):
+            for lset, tag_ in ((lines, "generated"), (mixed, "mixed_strands"), (directed, "merged_row_sorts_later")):
                 judge_merge_all_criteria(ctx, res, {"scenario": "merge_all_criteria", "input": lset, "criteria": crit_name,
                                                     "no_shrink": True})
                 res.count("merge_all_criteria_%s_%s" % (crit_name, tag_))
